@@ -37,6 +37,13 @@ pub struct Case {
     /// the check disabled expiry is ignored, whatever the attribute says
     #[serde(default)]
     pub far_expires: bool,
+    /// (timings 0 and 3, single-packet FDT) a carousel repetition of the same instance, with a fresh SCT,
+    /// arrives just before the object
+    #[serde(default)]
+    pub repeat_fdt: bool,
+    /// receiver with object_receive_once = false
+    #[serde(default)]
+    pub receive_twice: bool,
 }
 
 const S0: u64 = EPOCH_2027 + 86_400; // sender time when the (last packet of the) FDT is sent
@@ -175,6 +182,10 @@ pub fn run_case(c: &Case) -> Outcome {
             if c.timing == 3 {
                 evs.push(((S0 as i64 + s1) / 2, E::Cleanup));
             }
+            if c.repeat_fdt && !c.multi {
+                let sct = if c.sct_present { Some((unix_to_ntp_secs(s1 as u64) as u32, 0u32)) } else { None };
+                evs.push((s1, E::Pkt(fdt_packets(TSI, 9, xml.as_bytes(), 8192, sct, None).remove(0))));
+            }
             for p in &pa {
                 evs.push((s1, E::Pkt(p.clone())));
             }
@@ -209,7 +220,7 @@ pub fn run_case(c: &Case) -> Outcome {
         }
     }
     let mon = Mon::new(true);
-    let mut cfg = recv_config(true);
+    let mut cfg = recv_config(!c.receive_twice);
     cfg.enable_fdt_expiration_check = c.check;
     cfg.max_objects_error = 5;
     flute::verif::clock_reset(0);
@@ -333,12 +344,17 @@ pub fn run(thorough: bool) -> i32 {
                                 continue;
                             }
                             for (multi, spread) in [(false, 0i64), (true, 1), (true, 40)] {
-                                cases.push(Case { sct_minus_expires: d, sct_present, offset, check, timing, obj_est_minus_expires: g, multi, spread, second_session: false, far_expires: false });
+                                cases.push(Case { sct_minus_expires: d, sct_present, offset, check, timing, obj_est_minus_expires: g, multi, spread, second_session: false, far_expires: false, repeat_fdt: false, receive_twice: false });
+                                if !multi && matches!(timing, 0 | 3) {
+                                    for receive_twice in [false, true] {
+                                        cases.push(Case { sct_minus_expires: d, sct_present, offset, check, timing, obj_est_minus_expires: g, multi, spread, second_session: false, far_expires: false, repeat_fdt: true, receive_twice });
+                                    }
+                                }
                                 if !check && !multi && timing <= 2 {
-                                    cases.push(Case { sct_minus_expires: d, sct_present, offset, check, timing, obj_est_minus_expires: g, multi, spread, second_session: false, far_expires: true });
+                                    cases.push(Case { sct_minus_expires: d, sct_present, offset, check, timing, obj_est_minus_expires: g, multi, spread, second_session: false, far_expires: true, repeat_fdt: false, receive_twice: false });
                                 }
                                 if !multi {
-                                    cases.push(Case { sct_minus_expires: d, sct_present, offset, check, timing, obj_est_minus_expires: g, multi, spread, second_session: true, far_expires: false });
+                                    cases.push(Case { sct_minus_expires: d, sct_present, offset, check, timing, obj_est_minus_expires: g, multi, spread, second_session: true, far_expires: false, repeat_fdt: false, receive_twice: timing == 4 });
                                 }
                             }
                         }
